@@ -307,6 +307,19 @@ func (g *Gate) Release(p string) bool {
 	return true
 }
 
+// ReleaseNth lets the n-th oldest goroutine parked at p continue (n from 0); false if there is none.
+func (g *Gate) ReleaseNth(p string, n int) bool {
+	g.mu.Lock()
+	defer g.mu.Unlock()
+	w := g.waiting[p]
+	if n < 0 || n >= len(w) {
+		return false
+	}
+	close(w[n])
+	g.waiting[p] = append(append([]chan struct{}{}, w[:n]...), w[n+1:]...)
+	return true
+}
+
 // ReleaseAll frees every parked goroutine and stops holding anything.
 func (g *Gate) ReleaseAll() {
 	g.mu.Lock()
